@@ -37,6 +37,7 @@ type (
 		Forall bool
 		Vars   [][2]string // name, sort
 		Body   Expr
+		Trig   []Expr // optional trigger terms: forall(j Int :: {a[j]} body)
 	}
 )
 
@@ -182,7 +183,7 @@ func lexExpr(s string) ([]tok, error) {
 			out = append(out, tok{"int", fmt.Sprint(int(ch))})
 			i = j + 1
 		default:
-			ops := []string{"<==>", "==>", "::", "&&", "||", "==", "!=", "<=", ">=", "++", "<", ">", "+", "-", "*", "/", "%", "!", "(", ")", "[", "]", ",", ":", "."}
+			ops := []string{"<==>", "==>", "::", "&&", "||", "==", "!=", "<=", ">=", "++", "<", ">", "+", "-", "*", "/", "%", "!", "(", ")", "[", "]", ",", ":", ".", "{", "}"}
 			matched := false
 			for _, op := range ops {
 				if strings.HasPrefix(s[i:], op) {
@@ -429,9 +430,22 @@ func (p *exprParser) parsePrimary() Expr {
 				break
 			}
 			p.expect("::")
+			var trig []Expr
+			if p.isOp("{") {
+				p.next()
+				for {
+					trig = append(trig, p.parseIff())
+					if p.isOp(",") {
+						p.next()
+						continue
+					}
+					break
+				}
+				p.expect("}")
+			}
 			body := p.parseIff()
 			p.expect(")")
-			return &EQuant{t.text == "forall", vars, body}
+			return &EQuant{t.text == "forall", vars, body, trig}
 		}
 		if p.isOp("(") {
 			p.next()
